@@ -3043,6 +3043,408 @@ def canonicalised_config_is_declared(repo: Repo, R: Report) -> None:
         raise AnalysisError("no function hands a configuration to other code before canonicalising it (inspect-then-canonicalise sites not found)")
 
 
+# ---------------------------------------------------------------------------------------------------------
+# D1c  the pairs handed to the config id: one per node of the spec
+# ---------------------------------------------------------------------------------------------------------
+
+CONFIG_ROLLUP = "compute_pipeline_config_id"
+# calls that hand on every element of their (sequence) arguments, one for one
+_ELEMENTWISE_CALLS = {"enumerate", "zip", "zip_longest", "list", "tuple", "iter", "sorted", "reversed", "cast", "deepcopy", "copy"}
+_ELEMENTWISE_METHODS = {"copy", "values", "items", "keys"}
+# calls whose result can have fewer elements than their argument
+_THINNING_CALLS = {"set", "frozenset", "filter", "filterfalse", "islice", "takewhile", "dropwhile", "compress", "fromkeys", "unique"}
+_SEQ_GROW = {"append", "add", "insert", "extend", "appendleft"}
+
+SeqCut = Tuple[str, str, ast.AST, str]
+
+
+class _SeqCuts:
+    """Constructs that make a per-node sequence *shorter than the traversal it is built from*: a filter clause, a slice,
+    a de-duplicating / truncating call, an accumulate loop in which an iteration can end without adding an element
+    (`continue`, an `if` without `else` around the append - decided on the control-flow graph: can the loop head be
+    reached again from the start of the body without passing a statement that grows the accumulator?) or that is left
+    early (`break`).  The sequence is followed backwards through locals, element-wise calls (enumerate / zip / list ..),
+    comprehensions, accumulate loops (into the iterable of the loop and into every sequence the loop reads at its
+    running position), mapping entries written in the function, and into what functions of the package return.
+    What cannot be followed (a parameter, an attribute of some object) is taken as complete: the rule reports
+    definite skips only."""
+
+    def __init__(self, repo: Repo) -> None:
+        self.repo = repo
+        self.out: List[SeqCut] = []
+        self._seen: Set[Tuple[int, str]] = set()
+        self._seen_fn: Set[int] = set()
+        self._cfgs: Dict[int, CFG] = {}
+
+    def cfg(self, fn: ast.AST) -> CFG:
+        g = self._cfgs.get(id(fn))
+        if g is None:
+            g = CFG(fn)  # with exception edges: `try: c = resolve(x)  except E: continue` skips an element too
+            self._cfgs[id(fn)] = g
+        return g
+
+    def cut(self, rel: str, fn: ast.AST, node: ast.AST, why: str) -> None:
+        src = getattr(fn, "_normal_of", fn)
+        qn = qualname_of(src) if isinstance(src, FuncNode) else "<module>"
+        if not any(n is node for _r, _q, n, _w in self.out):
+            self.out.append((rel, qn, node, why))
+
+    # -- expressions ----------------------------------------------------------------------------------------
+    def seq(self, rel: str, fn: ast.AST, e: Optional[ast.AST], depth: int = 0) -> None:
+        if e is None or depth > 6:
+            return
+        if isinstance(e, ast.Name):
+            self.local(rel, fn, e.id, depth)
+        elif isinstance(e, (ast.IfExp,)):
+            self.seq(rel, fn, e.body, depth)
+            self.seq(rel, fn, e.orelse, depth)
+        elif isinstance(e, ast.BoolOp):
+            for v in e.values:
+                self.seq(rel, fn, v, depth)
+        elif isinstance(e, ast.NamedExpr):
+            self.seq(rel, fn, e.value, depth)
+        elif isinstance(e, ast.Starred):
+            self.seq(rel, fn, e.value, depth)
+        elif isinstance(e, ast.BinOp) and isinstance(e.op, ast.Add):
+            self.seq(rel, fn, e.left, depth)
+            self.seq(rel, fn, e.right, depth)
+        elif isinstance(e, (ast.ListComp, ast.GeneratorExp, ast.SetComp, ast.DictComp)):
+            if isinstance(e, ast.SetComp):
+                self.cut(rel, fn, e, f"`{_u(e)[:70]}` keeps one of several equal elements")
+            for gen in e.generators:
+                for t in gen.ifs:
+                    self.cut(rel, fn, t, f"the clause `if {_u(t)[:60]}` of `{_u(e)[:50]}..` leaves elements out")
+                self.seq(rel, fn, gen.iter, depth)
+            if len(e.generators) == 1:
+                tn = {x.id for x in ast.walk(e.generators[0].target) if isinstance(x, ast.Name)}
+                for b in ([e.key, e.value] if isinstance(e, ast.DictComp) else [e.elt]):
+                    self.aligned(rel, fn, b, tn, None, depth)
+        elif isinstance(e, ast.Subscript):
+            if isinstance(e.slice, ast.Slice):
+                self.cut(rel, fn, e, f"`{_u(e)[:70]}` keeps a slice")
+                self.seq(rel, fn, e.value, depth)
+            elif isinstance(e.slice, ast.Constant) and isinstance(e.slice.value, str):
+                self.entry(rel, fn, e.value, e.slice.value, depth)
+        elif isinstance(e, ast.Call):
+            nm = call_attr(e)
+            if nm in _THINNING_CALLS:
+                self.cut(rel, fn, e, f"`{_u(e)[:70]}` can return fewer elements than it receives")
+                for a in e.args:
+                    self.seq(rel, fn, a, depth)
+            elif isinstance(e.func, ast.Attribute) and nm == "get" and e.args and isinstance(e.args[0], ast.Constant) and isinstance(e.args[0].value, str):
+                self.entry(rel, fn, e.func.value, e.args[0].value, depth)
+            elif isinstance(e.func, ast.Attribute) and nm in _ELEMENTWISE_METHODS and not e.args:
+                self.seq(rel, fn, e.func.value, depth)
+            elif isinstance(e.func, ast.Name) and nm in _ELEMENTWISE_CALLS:
+                for a in (e.args[-1:] if nm == "cast" else e.args):
+                    self.seq(rel, fn, a, depth)
+            else:
+                self.callee(rel, fn, e, depth)
+
+    def entry(self, rel: str, fn: ast.AST, recv: ast.AST, key: str, depth: int) -> None:
+        """The sequence read from the entry *key* of the mapping *recv*: what this function wrote there."""
+        try:
+            vals = mapping_items(self.repo, rel, fn, recv).get(key, [])
+        except AnalysisError:
+            vals = []
+        for v in vals:
+            self.seq(rel, fn, v, depth + 1)
+
+    def callee(self, rel: str, fn: ast.AST, call: ast.Call, depth: int) -> None:
+        mod = self.repo.module(rel)
+        targets: List[Tuple[Module, ast.AST]] = []
+        hit = _local_callee(self.repo, rel, fn, call)
+        if hit is not None and isinstance(mod.defs.get(hit[0]), FuncNode):
+            targets = [(mod, mod.defs[hit[0]])]
+        else:
+            try:
+                targets = [(tm, tn) for tm, tn in self.repo.resolve_call(mod, call) if isinstance(tn, FuncNode) and tm.defs.get(qualname_of(tn)) is tn]
+            except Exception:  # a call inside a normal form without the links the resolver wants: not followed
+                targets = []
+            if not targets and isinstance(call.func, ast.Attribute) and dotted_name(call.func.value) in ("self", "cls"):
+                cands = [(qn, n) for qn, n in mod.defs.items() if isinstance(n, FuncNode) and "." in qn and qn.rpartition(".")[2] == call.func.attr]
+                targets = [(mod, n) for _qn, n in cands]
+        for tm, tn in targets:
+            if id(tn) in self._seen_fn or tn.name == "__init__":
+                continue
+            self._seen_fn.add(id(tn))
+            self.repo.consulted.add(tm.rel)
+            nf = nfunc(self.repo, tm.rel, qualname_of(tn))
+            for r in walk_no_nested(nf):
+                if isinstance(r, ast.Return) and r.value is not None:
+                    self.seq(tm.rel, nf, r.value, depth + 1)
+
+    # -- locals: bindings and accumulate loops -------------------------------------------------------------
+    def local(self, rel: str, fn: ast.AST, name: str, depth: int) -> None:
+        if (id(fn), name) in self._seen:
+            return
+        self._seen.add((id(fn), name))
+        for v in assigned_value(fn, name):
+            if not _is_empty_container(v):
+                self.seq(rel, fn, v, depth + 1)
+        grows: Dict[int, Tuple[ast.AST, List[Tuple[ast.AST, List[ast.AST]]]]] = {}  # loop -> (loop, [(statement, values)])
+        for n in _fn_stmts(fn):
+            vals: Optional[List[ast.AST]] = None
+            if isinstance(n, ast.Call) and isinstance(n.func, ast.Attribute) and n.func.attr in _SEQ_GROW and isinstance(n.func.value, ast.Name) and n.func.value.id == name:
+                vals = list(n.args[-1:])
+                if n.func.attr == "extend":
+                    for a in n.args:
+                        self.seq(rel, fn, a, depth + 1)
+            elif isinstance(n, ast.AugAssign) and isinstance(n.op, ast.Add) and isinstance(n.target, ast.Name) and n.target.id == name:
+                vals = list(n.value.elts) if isinstance(n.value, (ast.List, ast.Tuple)) else []
+                if not isinstance(n.value, (ast.List, ast.Tuple)):
+                    self.seq(rel, fn, n.value, depth + 1)
+            if vals is None:
+                continue
+            st = n if isinstance(n, ast.stmt) else stmt_of(n)
+            loop = next((a for a in ancestors(st) if isinstance(a, (ast.For, ast.AsyncFor, ast.While)) and any(a is x for x in ast.walk(fn))), None)
+            if loop is not None:
+                grows.setdefault(id(loop), (loop, []))[1].append((st, vals))
+        for loop, sites in grows.values():
+            self.loop(rel, fn, name, loop, sites, depth)
+
+    def loop(self, rel: str, fn: ast.AST, name: str, loop: ast.AST, sites: List[Tuple[ast.AST, List[ast.AST]]], depth: int) -> None:
+        g = self.cfg(fn)
+        heads = g.nodes_for(loop)
+        grow_nodes = {nid for st, _v in sites for nid in g.nodes_for(st)}
+        if heads and grow_nodes:
+            head = heads[0]
+            # an iteration that ends without a new element
+            starts = [t for t, lab in g.succ[head] if lab == "T" and t not in grow_nodes]
+            seen = g.reach(starts, blocked=grow_nodes | {head})
+            back = [n for n in seen if any(t == head for t, _l in g.succ[n])]
+            if back:
+                last = g.nodes[sorted(back, key=lambda i: g.nodes[i].line)[0]]
+                cond = next((a for a in [last.ast] + list(ancestors(last.ast)) if isinstance(a, ast.If) and any(a is x for x in ast.walk(loop))), None) if last.ast is not None else None
+                node = last.ast if isinstance(last.ast, ast.Continue) else (cond or loop)
+                how = f"`continue` under `if {_u(cond.test)[:60]}`" if isinstance(last.ast, ast.Continue) and cond is not None else f"the element is added only under `if {_u(cond.test)[:60]}`" if cond is not None else "a path through the body passes no statement that adds one"
+                self.cut(rel, fn, node, f"an iteration of `for {_u(getattr(loop, 'target', None))} in {_u(getattr(loop, 'iter', None))[:50]}` can end without adding an element to `{name}` ({how})")
+            for n in ast.walk(loop):
+                if isinstance(n, ast.Break) and next((a for a in ancestors(n) if isinstance(a, (ast.For, ast.AsyncFor, ast.While))), None) is loop:
+                    self.cut(rel, fn, n, f"`break` leaves the traversal that fills `{name}` before every element was visited")
+        if isinstance(loop, (ast.For, ast.AsyncFor)):
+            self.seq(rel, fn, loop.iter, depth + 1)
+            tn = {x.id for x in ast.walk(loop.target) if isinstance(x, ast.Name)}
+            for _st, vals in sites:
+                for v in vals:
+                    self.aligned(rel, fn, v, tn, loop, depth)
+
+    def aligned(self, rel: str, fn: ast.AST, value: ast.AST, index_names: Set[str], loop: Optional[ast.AST], depth: int) -> None:
+        """Sequences read at the running position of the traversal (`uuids[index]`) on the way into *value*: paired with
+        the traversed sequence by position, so they have to be complete as well."""
+        nodes = flow(fn, value) if loop is not None else list(ast.walk(value))
+        for x in nodes:
+            if isinstance(x, ast.Subscript) and isinstance(x.ctx, ast.Load) and isinstance(x.slice, ast.Name) and x.slice.id in index_names:
+                if loop is not None and not any(a is loop for a in ancestors(x)):
+                    continue
+                self.seq(rel, fn, x.value, depth + 1)
+
+
+def config_pairs_cover_every_node(repo: Repo, R: Report) -> None:
+    """The config id is a hash of the (node uuid, node semantic id) pairs its caller collected.  `compute_pipeline_config_id`
+    hashes what it is given (D1); that every node of the spec *is* given is an agreement with each caller: the list of
+    pairs - and every per-node sequence it is assembled from by position (resolved classes, uuids) - holds one element
+    per node.  A sequence that skips a node (a `continue` in the loop that resolves the processor classes) shifts the
+    positional pairing: the last nodes never enter the pairs, so a change of their processor or parameters leaves the
+    config id where it was."""
+    r = R.rule("C05-D1c-config-pairs-one-per-node", "every function of the package that computes the config id hands over one (uuid, semantic id) pair per node of the spec: the list of pairs and every per-node sequence it is assembled from by position (followed through locals, accumulate loops, comprehensions, element-wise calls and into what functions of the package return) is built without skipping an element - no filter clause, slice, de-duplication, `break`, and no iteration of an accumulate loop that can end without adding an element (control-flow graph)", 2)
+    callers: List[Tuple[str, str]] = []
+    for mod, qn, node in repo.all_functions():
+        if any(isinstance(a, FuncNode) for a in ancestors(node)):
+            continue
+        if qn == CONFIG_ROLLUP and mod.rel == SEM:
+            continue
+        if any(call_attr(c) == CONFIG_ROLLUP for c in calls_in(node)):
+            callers.append((mod.rel, qn))
+    for rel, qn in sorted(callers):
+        repo.consulted.add(rel)
+        fn = nfunc(repo, rel, qn)
+        for c in calls_in(fn):
+            if call_attr(c) != CONFIG_ROLLUP:
+                continue
+            arg = c.args[0] if c.args else (c.keywords[0].value if c.keywords else None)
+            if arg is None:
+                R.violation(r, rel, qn, norm(stmt_of(c))[:110], "the config id is computed from no pairs at all", c.lineno)
+                continue
+            sc = _SeqCuts(repo)
+            sc.seq(rel, fn, arg)
+            for crel, cqn, node, why in sc.out:
+                st = node if isinstance(node, ast.stmt) and not isinstance(node, (ast.For, ast.While, ast.If)) else None
+                text = norm(st)[:110] if st is not None else (f"if {_u(node.test)[:90]}:" if isinstance(node, ast.If) else f"for {_u(node.target)} in {_u(node.iter)[:70]}:" if isinstance(node, ast.For) else _u(node)[:110])
+                R.violation(r, crel, cqn, text, f"a per-node sequence on the way into `{_u(c)[:60]}` ({qn}) does not hold one element per node: {why}; the pairs are assembled by position, so every node left out shifts the pairing and the last nodes of the pipeline never reach the config id - changing their processor or a parameter value leaves the config id unchanged", getattr(node, "lineno", c.lineno))
+            if not sc.out:
+                R.ok(r, rel, qn, f"`{_u(c)[:70]}`: one pair per node", "", c.lineno)
+
+
+# ---------------------------------------------------------------------------------------------------------
+# D3d  the classes the domain signature tells apart by name are the classes the package builds domains from
+# ---------------------------------------------------------------------------------------------------------
+
+def _reads_class_name(nodes: Iterable[ast.AST]) -> bool:
+    return any(isinstance(x, ast.Attribute) and x.attr in ("__name__", "__qualname__") for x in nodes)
+
+
+def _signature_dispatch(repo: Repo, rel: str, fn: ast.AST) -> Tuple[Set[str], List[ast.AST], List[ast.AST]]:
+    """How the function *fn* (normal form, closures included) tells the kinds of its argument apart:
+    (class names it compares the *name of the class* of the argument with - equality, membership, `match`, keys of a
+    dispatch table looked up with that name -, class expressions of `type(x) is C` / `type(x) == C` tests,
+    class expressions of `isinstance(x, C)` tests)."""
+    mod = repo.module(rel)
+    names: Set[str] = set()
+    exact: List[ast.AST] = []
+    inst: List[ast.AST] = []
+
+    def strings(e: ast.AST) -> Set[str]:
+        return _module_strings(mod, e)
+
+    def about_class_name(e: ast.AST) -> bool:
+        return _reads_class_name(flow(fn, e))
+
+    def is_type_call(e: ast.AST) -> bool:
+        return (isinstance(e, ast.Call) and call_attr(e) == "type" and len(e.args) == 1) or (isinstance(e, ast.Attribute) and e.attr == "__class__")
+
+    for x in ast.walk(fn):
+        if isinstance(x, ast.Compare):
+            sides = [x.left] + list(x.comparators)
+            if any(about_class_name(s) for s in sides):
+                for s in sides:
+                    if not about_class_name(s):
+                        names |= strings(s)
+            elif any(is_type_call(s) or any(is_type_call(v) for v in flow(fn, s) if isinstance(s, ast.Name)) for s in sides):
+                for s in sides:
+                    if not is_type_call(s):
+                        exact.extend(s.elts if isinstance(s, (ast.Tuple, ast.List, ast.Set)) else [s])
+        elif isinstance(x, ast.Call) and call_attr(x) == "isinstance" and len(x.args) == 2:
+            c = x.args[1]
+            inst.extend(c.elts if isinstance(c, ast.Tuple) else [c])
+        elif isinstance(x, ast.Call) and isinstance(x.func, ast.Attribute) and x.func.attr == "get" and x.args and about_class_name(x.args[0]):
+            names |= _table_keys(mod, fn, x.func.value)
+        elif isinstance(x, ast.Subscript) and isinstance(x.ctx, ast.Load) and not isinstance(x.slice, (ast.Constant, ast.Slice)) and about_class_name(x.slice):
+            names |= _table_keys(mod, fn, x.value)
+        elif type(x).__name__ == "Match" and about_class_name(x.subject):
+            for case in x.cases:
+                for p in ast.walk(case.pattern):
+                    if type(p).__name__ == "MatchValue":
+                        names |= strings(p.value)
+    return names, exact, inst
+
+
+def _table_keys(mod: Module, fn: ast.AST, table: ast.AST, depth: int = 0) -> Set[str]:
+    """String keys of the mapping a dispatch table expression denotes (a literal, `dict(k=..)`, a local or a module-level name
+    bound to one, with its `t[k] = v` stores)."""
+    out: Set[str] = set()
+    if depth > 3:
+        return out
+    if isinstance(table, ast.Dict):
+        for k, v in zip(table.keys, table.values):
+            if k is None:
+                out |= _table_keys(mod, fn, v, depth + 1)
+            elif isinstance(k, ast.Constant) and isinstance(k.value, str):
+                out.add(k.value)
+    elif isinstance(table, ast.Call) and call_attr(table) in ("dict", "OrderedDict", "MappingProxyType"):
+        out |= {k.arg for k in table.keywords if k.arg}
+        for a in table.args:
+            out |= _table_keys(mod, fn, a, depth + 1)
+    elif isinstance(table, ast.Name):
+        vals = list(assigned_value(fn, table.id))
+        out |= {k for _st, k, _v in key_stores(fn, table.id) if isinstance(k, str)}
+        if not vals:
+            for st in mod.tree.body:
+                tgts = st.targets if isinstance(st, ast.Assign) else [st.target] if isinstance(st, ast.AnnAssign) and st.value is not None else []
+                if any(isinstance(t, ast.Name) and t.id == table.id for t in tgts):
+                    vals.append(st.value)
+                elif isinstance(st, ast.Assign) and any(isinstance(t, ast.Subscript) and isinstance(t.value, ast.Name) and t.value.id == table.id and isinstance(t.slice, ast.Constant) and isinstance(t.slice.value, str) for t in st.targets):
+                    out |= {t.slice.value for t in st.targets if isinstance(t, ast.Subscript) and isinstance(t.slice, ast.Constant)}
+        for v in vals:
+            out |= _table_keys(mod, fn, v, depth + 1)
+    return out
+
+
+def domain_classes_known_to_signature(repo: Repo, R: Report) -> None:
+    """`variable_domain_signature` decides what it writes down for a sweep variable from the *class* of the domain object.
+    Where it compares the name of the class (`type(spec).__name__ == "RangeSpec"`) the test holds for that very class
+    only: an object of a derived class - which every `isinstance` test on the execution side accepts as a range and
+    turns into values - falls through to the catch-all, which records nothing but the class name.  Both sides of that
+    boundary have to agree on the classes: every class derived from one the signature knows by name that the package
+    instantiates is known to the signature as well."""
+    r = R.rule("C05-D3d-domain-classes-known-to-signature", "the domain signature and the code that builds sweep variable domains agree on the classes: where the signature recognises a domain class by the exact name / identity of the class of its argument, every class derived from it that code of the package instantiates (a derived range / sequence / from-context spec that the execution side still treats as one through isinstance) is recognised too - by its own name or by an isinstance test; otherwise its lo / hi / steps / values never reach the signature", 1)
+    vds = NF(repo, SEM, "variable_domain_signature")
+    bodies: List[ast.AST] = [vds]
+    sem = repo.module(SEM)
+    # the signature may hand the spec on to functions of its module (a dispatch table of signers): they belong to it
+    seen_fn: Set[str] = {"variable_domain_signature"}
+    todo = [vds]
+    while todo:
+        f = todo.pop()
+        for x in ast.walk(f):
+            if isinstance(x, ast.Name) and isinstance(x.ctx, ast.Load) and x.id not in seen_fn and isinstance(sem.defs.get(x.id), FuncNode) and x.id.startswith("_"):
+                seen_fn.add(x.id)
+                nf = NF(repo, SEM, x.id)
+                bodies.append(nf)
+                todo.append(nf)
+    names: Set[str] = set()
+    exact: List[ast.AST] = []
+    inst: List[ast.AST] = []
+    for b in bodies:
+        n_, e_, i_ = _signature_dispatch(repo, SEM, b)
+        names |= n_
+        exact.extend(e_)
+        inst.extend(i_)
+
+    def classes_of(exprs: List[ast.AST]) -> List[Tuple[Module, ast.ClassDef]]:
+        out = []
+        for e in exprs:
+            try:
+                hit = repo.resolve_name(sem, e, vds)
+            except Exception:
+                hit = None
+            if hit is not None and isinstance(hit[1], ast.ClassDef):
+                out.append(hit)  # type: ignore[arg-type]
+        return out
+
+    by_name = [(m, c) for m, _qn, c in repo.all_classes() if c.name in names]
+    exact_cls = by_name + classes_of(exact)
+    inst_cls = classes_of(inst)
+    if not exact_cls and not inst_cls:
+        raise AnalysisError("variable_domain_signature: no test on the class of the domain object found (by name, by identity or by isinstance)")
+    if not exact_cls:
+        R.ok(r, SEM, "variable_domain_signature", "domain classes are recognised by isinstance: derived classes are covered", "", vds.lineno)
+        return
+    known = {id(c) for _m, c in exact_cls}
+
+    def covered(m: Module, c: ast.ClassDef) -> bool:
+        return id(c) in known or any(any(b is ic for _bm, b in repo.mro(m, c)) for _im, ic in inst_cls)
+
+    # instantiations, by the class the callee expression resolves to
+    derived: Dict[int, Tuple[Module, ast.ClassDef, ast.ClassDef]] = {}
+    for bm, base in exact_cls:
+        for sm, sub in repo.subclasses(base):
+            if not covered(sm, sub):
+                derived.setdefault(id(sub), (sm, sub, base))
+    sites: Dict[int, List[Tuple[Module, str, ast.Call]]] = {}
+    if derived:
+        for m, qn, f in repo.all_functions():
+            for c in calls_in(f):
+                try:
+                    hit = repo.resolve_name(m, c.func, c)
+                except Exception:
+                    hit = None
+                if hit is not None and id(hit[1]) in derived:
+                    sites.setdefault(id(hit[1]), []).append((m, qn, c))
+    reported: Set[int] = set()
+    for bm, base in exact_cls:
+        bad = [(sm, sub) for sm, sub, b in derived.values() if b is base and sites.get(id(sub))]
+        for sm, sub in bad:
+            for m, qn, c in sites[id(sub)]:
+                if id(c) in reported:
+                    continue
+                reported.add(id(c))
+                repo.consulted.add(m.rel)
+                R.violation(r, m.rel, qn, norm(stmt_of(c))[:110], f"`{_u(c)[:60]}` builds a sweep variable domain of class `{sub.name}` ({sm.rel}:{sub.lineno}), derived from `{base.name}`; the domain signature recognises `{base.name}` by the exact {'name' if base.name in names else 'identity'} of the class, so this object falls through to what the signature writes for an unknown class (its name only): the fields of the domain (bounds, steps, values ..) no longer reach the sweep metadata - two sweeps that differ only there produce different items but share node semantic id, semantic id and config id", c.lineno)
+        if not bad:
+            R.ok(r, SEM, "variable_domain_signature", f"every class derived from `{base.name}` that the package instantiates is recognised by the signature", "", vds.lineno)
+
+
 def run(repo: Repo, R: Report) -> None:
     R.assume(
         "sha256 / uuid5 are injective for practical purposes and json.dumps(sort_keys=True) is injective on JSON values",
@@ -3056,6 +3458,8 @@ def run(repo: Repo, R: Report) -> None:
     positional_and_domains(repo, R)
     canonicalised_config_is_declared(repo, R)
     sweep_field_values_handed_over(repo, R)
+    config_pairs_cover_every_node(repo, R)
+    domain_classes_known_to_signature(repo, R)
     # an expression signature that merges expressions of different value makes two different sweeps share an id:
     # the discrimination half of C12 (only +/* chains of one operator are flattened; every other position is
     # kept in order) is a necessary condition of C05 as well
